@@ -45,6 +45,8 @@ inductive Err where
   | indexError
   | typeError
   | noData
+  /-- `KeyError` (round 3: `data[f"{atnum}_rad"]` of an element the preset does not tabulate) -/
+  | keyError
   deriving DecidableEq, Repr
 
 section
@@ -385,6 +387,147 @@ theorem rotateGuard_false (r : RotArg) (rot n : Nat) (hv : r.val = (rot : Int)) 
 
 end Py
 
+/-! ### Round 3: vocabulary of the statement-wise translations of `get_shell_grid`,
+`_generate_atomic_grid` (loop included) and `from_preset` (`Gen/AtomGrid.lean`) -/
+section Py3
+variable {α σ : Type} {K : Type}
+
+/-- Python's `l[i]` for an integer `i` (negative indices count from the end): `IndexError` outside -/
+def pyItem (l : List α) (i : Int) : Except Err α :=
+  let j : Int := if i < 0 then i + (l.length : Int) else i
+  if j < 0 then .error .indexError else
+  match l[j.toNat]? with
+  | some x => .ok x
+  | none => .error .indexError
+
+/-- `a[i]` for a non-negative index into a 1-D array -/
+def npGetItem (l : List α) (i : Nat) : Except Err α :=
+  match l[i]? with
+  | some x => .ok x
+  | none => .error .indexError
+
+/-- `a[i] = v` on a 1-D array (the array with that entry replaced): `IndexError` beyond the end -/
+def npSetItem (l : List α) (i : Nat) (v : α) : Except Err (List α) :=
+  if i < l.length then .ok (l.set i v) else .error .indexError
+
+/-- `np.zeros(n, dtype=int)` -/
+def npZerosInt (n : Nat) : List Nat := List.replicate n 0
+
+/-- `np.vstack(list of (n_i, 3) arrays)`: `ValueError` for an empty list -/
+def npVstack : List (List α) → Except Err (List α)
+  | [] => .error .valueError
+  | l => .ok l.flatten
+
+/-- `np.hstack(list of 1-D arrays)`: `ValueError` for an empty list -/
+def npHstack : List (List α) → Except Err (List α)
+  | [] => .error .valueError
+  | l => .ok l.flatten
+
+/-- `for i, x in enumerate(xs): state = body(state, i, x)` starting the count at `i`; the first
+iteration that raises ends the loop -/
+def pyForEnumerateFrom (body : σ → Nat → α → Except Err σ) : Nat → List α → σ → Except Err σ
+  | _, [], st => .ok st
+  | i, x :: xs, st =>
+    match body st i x with
+    | .error e => .error e
+    | .ok st' => pyForEnumerateFrom body (i + 1) xs st'
+
+/-- `for i, x in enumerate(xs)` -/
+def pyForEnumerate (xs : List α) (init : σ) (body : σ → Nat → α → Except Err σ) : Except Err σ :=
+  pyForEnumerateFrom body 0 xs init
+
+/-- what `AngularGrid(degree=d, method=m)` is to the calling code: `.degree` (the resolved one),
+`.points`, `.weights` (assignable) -/
+structure AngGrid (K : Type) where
+  degree : Nat
+  points : List (V3 K)
+  weights : List K
+
+/-- `a @ M`, `a.dot(M)` for an `(N, 3)` array and a `(3, 3)` matrix -/
+def npMatMul [Add K] [Mul K] (a : List (V3 K)) (M : M3 K) : List (V3 K) := a.map fun u => u.mulMat M
+
+/-- `a * r` for an `(N, 3)` array and a one-element array `r` (broadcast over rows and columns) -/
+def npMulRows [Mul K] (a : List (V3 K)) (r : K) : List (V3 K) := a.map fun u => ⟨u.x * r, u.y * r, u.z * r⟩
+
+/-- `d[k]` for a dict given as its item list: `KeyError` for a missing key -/
+def pyDictGet {β : Type} (d : List (Nat × β)) (k : Nat) : Except Err β :=
+  match d.find? fun kv => kv.1 == k with
+  | some kv => .ok kv.2
+  | none => .error .keyError
+
+/-- `k in d` -/
+def pyDictContains {β : Type} (d : List (Nat × β)) (k : Nat) : Bool := d.any fun kv => kv.1 == k
+
+/-- `UniformInteger(npt)` as far as `from_preset` is concerned: its size -/
+structure UniformIntegerGrid where
+  npoints : Nat
+
+/-- the outside world `from_preset` consults besides the angular tables: the module constant
+`_DEFAULT_POWER_RTRANSFORM_PARAMS` (`atnum ↦ (rmin, rmax, npt)`, lengths in angstrom), the two SciPy
+constants, `PowerRTransform(rmin, rmax).transform_1d_grid(UniformInteger(npt))` (C01 / C03 / C04) as a
+function of its three arguments, and the number type of a stored sector radius `num / 2^k` -/
+structure PresetWorld (K : Type) where
+  defaultParams : List (Nat × (K × K × Nat))
+  angstrom : K
+  atomicUnitOfLength : K
+  powerTransformGrid : K → K → UniformIntegerGrid → RGrid K
+  toK : Nat × Nat → K
+
+/-- `np.load(files("grid.data.prune_grid").joinpath(f"prune_grid_{preset}.npz"))`: the pairs the
+file tabulates (`Gen/Presets.lean`, regenerated from the `.npz` files) -/
+def npLoadPruneGrid (preset : Preset) : List Entry := entries.filter fun e => e.preset == preset
+
+/-- `data[f"{atnum}_rad"]`: an integer array of shell counts or a float array of sector radii -/
+structure RadArr (K : Type) where
+  isInt : Bool
+  counts : List Nat
+  values : List K
+
+def RadArr.len (r : RadArr K) : Nat := r.values.length
+
+def pruneEntry (data : List Entry) (atnum : Nat) : Except Err Entry :=
+  match data.find? fun e => e.atnum == atnum with
+  | some e => .ok e
+  | none => .error .keyError
+
+/-- `data[f"{atnum}_rad"]` (`KeyError` for an element the file does not tabulate) -/
+def pruneRad (toK : Nat × Nat → K) (data : List Entry) (atnum : Nat) : Except Err (RadArr K) :=
+  match pruneEntry data atnum with
+  | .ok e => .ok ⟨e.radIsInt, e.radCounts, e.radSectors.map toK⟩
+  | .error err => .error err
+
+/-- `data[f"{atnum}_npt"]` -/
+def pruneNpt (data : List Entry) (atnum : Nat) : Except Err (List Nat) :=
+  match pruneEntry data atnum with
+  | .ok e => .ok e.npt
+  | .error err => .error err
+
+/-- `range(rad[idx])`: `IndexError` beyond the array, `TypeError` for a float entry -/
+def pyRangeOfItem (rad : RadArr K) (idx : Nat) : Except Err (List Nat) :=
+  if rad.len ≤ idx then .error .indexError else
+  if !rad.isInt then .error .typeError else
+  match rad.counts[idx]? with
+  | some c => .ok (List.range c)
+  | none => .error .indexError
+
+/-- `[f(i, j) for i in xs for j in g(i)]` where `g` and `f` may raise -/
+def pyFlatMapM {β γ : Type} (xs : List α) (inner : α → Except Err (List β)) (elt : α → β → Except Err γ) :
+    Except Err (List γ) :=
+  match xs with
+  | [] => .ok []
+  | x :: rest =>
+    match inner x with
+    | .error e => .error e
+    | .ok js =>
+      match js.mapM (elt x) with
+      | .error e => .error e
+      | .ok ys =>
+        match pyFlatMapM rest inner elt with
+        | .error e => .error e
+        | .ok zs => .ok (ys ++ zs)
+
+end Py3
+
 section PyEnv
 variable {K : Type} [Add K] [Sub K] [Mul K] [Div K] [NatCast K]
 
@@ -401,6 +544,19 @@ def getDegreeAndSize0 (env : Env K) (degree size : Option Nat) : Except Err Nat 
   | .ok deg _ => .ok deg
   | .valueError => .error .valueError
   | .indexError => .error .indexError
+
+/-- `AngularGrid(degree=d, method=method)` as an object (round 3) -/
+def angularGrid (env : Env K) (d : Nat) : Except Err (AngGrid K) :=
+  match angular env d with
+  | .ok (deg, p, w) => .ok ⟨deg, p, w⟩
+  | .error e => .error e
+
+/-- `Rotation.random(random_state=s).as_matrix()`: NumPy rejects seeds outside `0 … 2**32 - 1`
+with `ValueError` (round 3) -/
+def rRandomMatrix (env : Env K) (s : Int) : Except Err (M3 K) :=
+  match s with
+  | .ofNat n => if n < 4294967296 then .ok (env.rotation n) else .error .valueError
+  | .negSucc _ => .error .valueError
 
 /-- `self._generate_atomic_grid(rgrid, degrees, rotate=rotate, method=…)` followed by the attribute
 assignments, for a `rotate` that passed the constructor's checks.  Inside the shell loop, after
